@@ -297,6 +297,12 @@ def run(ctx):
                         t3 = b['t']
                         if t3['k'] == 'switch':
                             term = T.op_term(rf, t3['d'])
+                            for o3 in rf.origins(t3['d']):
+                                inner = o3[1] if o3[0] in ('discr', 'not') and len(o3) > 1 else o3
+                                try:
+                                    term += ' ' + T.origin_term(rf, inner)[0]
+                                except Exception:
+                                    pass
                             other = [d2 for d2 in derived if d2 != d and re.search(r'self\.%s\b' % re.escape(d2), term)]
                             if other:
                                 for v, tb in t3['ts']:
